@@ -461,7 +461,11 @@ def replay_critpath_graphs(run, pid, checks, graphs, seed, limit=None):
         _models(isa, d)
         byname = {s["name"]: s for s in shapes}
         items = []
+        max_ops = 4 if isa == "x86" else 5      # what the parsers accept
         for gi, g in enumerate(graphs):
+            if any(len([e for e in g["E"] if e[1] == i]) + (1 if g["lds"][i - 1] else 0) + 1 > max_ops
+                   for i in range(1, g["n"] + 1)):
+                continue   # not expressible as one instruction per node on this ISA
             instrs = []
             for i in range(1, g["n"] + 1):
                 preds = sorted(e[0] for e in g["E"] if e[1] == i)
